@@ -109,7 +109,32 @@ class Ctx:
     def count(self, cls, n=1):
         self.hist[cls] = self.hist.get(cls, 0) + n
 
+    def _known_matchers(self):
+        """[(finding id, predicate)] of the recorded (status known) findings of this property that have a matcher"""
+        if getattr(self, "_km", None) is None:
+            self._km = []
+            try:
+                mod = importlib.import_module("vf.props." + self.prop.lower())
+                ms = getattr(mod, "MATCHERS", {})
+                for e in load_known(self.prop):
+                    if e.get("status") == "known" and e.get("match") in ms:
+                        self._km.append((e["id"], ms[e["match"]]))
+            except Exception:
+                self._km = []
+        return self._km
+
     def fail(self, case, bucket, detail=None):
+        # A failure that a recorded finding explains is excluded here, case by case, and counted: judged per bucket it would
+        # hide every other failure that happens to fall into the same bucket.
+        for fid, pred in self._known_matchers():
+            try:
+                hit = pred(case, bucket, detail)
+            except Exception:
+                hit = False
+            if hit:
+                self.excluded_known += 1
+                self.count("excluded:known-finding:" + fid)
+                return
         size = len(json.dumps(case, default=str))
         lst = self.failures.setdefault(bucket, [])
         lst.append((size, case, detail))
